@@ -138,6 +138,11 @@ func paramsFor(r *rng.R, seed uint64) Params {
 	if r.Intn(3) == 0 {
 		p.GenesisMatures = 2 + r.Intn(4)
 	}
+	// every third genesis with witnesses carries an ETH chain-driver option, so that lock / redeem
+	// trackers and their role-dependent block-end transitions are part of the history
+	if p.Witnesses > 0 && r.Intn(3) == 0 {
+		p.ETH = EthOption(int64(200+r.Intn(600)), int64(200+r.Intn(600)))
+	}
 	return p
 }
 
